@@ -94,6 +94,9 @@ class ElementBase(abc.ABC):
         return None
 
     def transform(self: ElementBaseT, transforms: Sequence[tr.Transformation]) -> ElementBaseT:
+        # (a snapshot: a displacement or an origin may be one of this entity's own arrays, which moves along)
+        transforms = copy.deepcopy(list(transforms))
+
         for t7m in transforms:
             # remember center or it will change during transformation
             # of each self.part
